@@ -40,10 +40,14 @@ def n_ellipsoid(ev, repo, a='a', n='n', origin='param:ellipsoid'):
 class Oracle(object):
     """oracle formulas written as python source, evaluated by the same abstract evaluator"""
 
-    def __init__(self, src, name='oracle'):
-        self.repo = Repo({name + '.py': src}, '<oracle>')
+    def __init__(self, src, name='oracle', base=None, opaque=(), summaries=None):
+        sources = {name + '.py': src}
+        if base is not None:
+            # the reference may call functions of the analysed repository (kept opaque or inlined like in the code)
+            sources.update(base.sources)
+        self.repo = Repo(sources, '<oracle>')
         self.mod = self.repo.module(name)
-        self.ev = Evaluator(self.repo, inline_depth=12)
+        self.ev = Evaluator(self.repo, inline_depth=12, opaque=opaque, summaries=summaries)
 
     def call(self, fname, **args):
         f = self.mod.functions.get(fname)
